@@ -8,10 +8,10 @@ package control
 // the user meant — and the packet, and answers with the proved first-match decision.
 
 import (
-	"github.com/daeuniverse/dae/common/assets"
 	"encoding/binary"
 	"encoding/hex"
 	"fmt"
+	"github.com/daeuniverse/dae/common/assets"
 	"net/netip"
 	"regexp"
 	"strings"
@@ -56,9 +56,9 @@ type c01Rule struct {
 	style     int // how must is written: 0 none, 1 "must_" prefix, 2 "(must)" param
 }
 type c01Prog struct {
-	ipPool [][]c01Val // address sets already used by a dip/sip condition of this program
-	exotic  bool // carries a literal outside the property's alphabet (l4proto icmp, ipversion 5, inverted port range, dscp > 63)
-	aimFrom int  // > 0: packets are mostly aimed at rules[aimFrom:] (large programs: the late rules)
+	ipPool            [][]c01Val // address sets already used by a dip/sip condition of this program
+	exotic            bool       // carries a literal outside the property's alphabet (l4proto icmp, ipversion 5, inverted port range, dscp > 63)
+	aimFrom           int        // > 0: packets are mostly aimed at rules[aimFrom:] (large programs: the late rules)
 	rules             []c01Rule
 	fbName            string
 	fbId              int
@@ -105,10 +105,32 @@ func c01GenCond(r *VRand, stats *VStats, p *c01Prog) c01Cond {
 	nv := 1 + r.Intn(4)
 	if r.Chance(0.5) {
 		nv = 1
+	} else if r.Chance(0.25) {
+		// long value lists: `Function.String` elides everything after the fifth parameter, hash keys and
+		// caches built from a rendered call must not confuse two lists that agree on their first values
+		nv = []int{5, 6, 7, 9, 12, 40}[r.Intn(6)]
+		stats.Inc("cond.long_value_list")
 	}
 	g := c01Group{}
 	switch fn {
 	case "dip", "sip":
+		if len(p.ipPool) > 0 && r.Chance(0.15) {
+			// near twin of an earlier set: all values but one are the same (same length, same first
+			// values in text and in sorted order most of the time) — it must get its own LPM slot
+			base := p.ipPool[r.Intn(len(p.ipPool))]
+			g.vals = append([]c01Val(nil), base...)
+			pf := c12RandPrefix(r, NewVStats())
+			if r.Bool() {
+				pf = netip.PrefixFrom(netip.AddrFrom4([4]byte{10, byte(r.Intn(2)), byte(r.Intn(4)), byte(1 + r.Intn(250))}), 32)
+			}
+			g.vals[len(g.vals)-1-r.Intn(1+len(g.vals)/3)] = c01Val{text: "'" + pf.String() + "'", tok: c12Tok(pf), pfx: pf}
+			stats.Inc("cond.ip_set_near_twin")
+			if len(g.vals) > 5 {
+				stats.Inc("cond.ip_set_near_twin.long")
+			}
+			defer func() { p.ipPool = append(p.ipPool, append([]c01Val(nil), c.groups[0].vals...)) }()
+			break
+		}
 		if len(p.ipPool) > 0 && r.Chance(0.3) {
 			// The same address set again, under the same or the OTHER direction: the builder shares one
 			// LPM slot between identical canonical sets whatever the match type, while the lookups use
@@ -220,7 +242,12 @@ func c01GenCond(r *VRand, stats *VStats, p *c01Prog) c01Cond {
 			var pat string
 			switch k {
 			case "regex":
-				pat = []string{`^a\.`, `cdn[0-9]*\.`, `(foo|bar)-`, `\.uk$`}[r.Intn(4)]
+				// among them expressions that match the EMPTY string: a packet without a domain must still
+				// satisfy no domain condition
+				pat = []string{`^a\.`, `cdn[0-9]*\.`, `(foo|bar)-`, `\.uk$`, `.*`, `^$`, `^[a-z.]*$`}[r.Intn(7)]
+				if pat == `.*` || pat == `^$` || pat == `^[a-z.]*$` {
+					stats.Inc("domain.regex_matching_empty_name")
+				}
 			case "keyword":
 				pat = c01Labels[r.Intn(len(c01Labels))]
 			default:
@@ -344,13 +371,37 @@ func c01OutText(name string, mark uint32, must bool, style int) string {
 }
 
 func c01GenProg(r *VRand, stats *VStats, maxRules int) *c01Prog {
-	return c01GenProgN(r, stats, r.Intn(maxRules+1), 0)
+	return c01GenProgN(r, stats, r.Intn(maxRules+1), 0, c01Large{})
+}
+
+// c01Large: shape of a large program. target > 0: the number of filler rules is chosen so that the
+// program lowers to exactly `target` match sets, fallback included (`filler` is then ignored);
+// everyLpm: every filler rule carries an address set of its own (hundreds of LPM slots).
+type c01Large struct {
+	target   int
+	everyLpm bool
+}
+
+// c01CondSets: match sets one condition lowers to (Model.compileBody): one per value for port / pname /
+// dscp, one per key group for the others.
+func c01CondSets(c *c01Cond) int {
+	n := 0
+	for gi := range c.groups {
+		switch c.fn {
+		case "dport", "sport", "pname", "dscp":
+			n += len(c.groups[gi].vals)
+		default:
+			n++
+		}
+	}
+	return n
 }
 
 // c01GenProgN: `filler` two-condition rules that (almost) no generated packet satisfies — each is two
 // match sets, a third of them with an LPM set of its own — followed by n ordinary random rules.
-func c01GenProgN(r *VRand, stats *VStats, n int, filler int) *c01Prog {
+func c01GenProgN(r *VRand, stats *VStats, n int, filler int, lg c01Large) *c01Prog {
 	p := &c01Prog{}
+	large := filler > 0 || lg.target > 0
 	randOut := func() (string, int, uint32, bool, int) {
 		id := c01OutIds[r.Intn(len(c01OutIds))]
 		var mark uint32
@@ -360,37 +411,18 @@ func c01GenProgN(r *VRand, stats *VStats, n int, filler int) *c01Prog {
 		must := r.Chance(0.25)
 		return c01Outs[id], id, mark, must, 1 + r.Intn(2)
 	}
-	for i := 0; i < filler; i++ {
-		var ru c01Rule
-		port := 10000 + i
-		c2 := c01Cond{fn: "dport", groups: []c01Group{{vals: []c01Val{{text: fmt.Sprint(port), tok: fmt.Sprintf("%d-%d", port, port), lo: port, hi: port}}}}}
-		var c1 c01Cond
-		if i%3 == 0 {
-			pf := netip.PrefixFrom(netip.AddrFrom4([4]byte{172, 16 + byte(i>>16), byte(i >> 8), byte(i)}), 32)
-			c1 = c01Cond{fn: "sip", groups: []c01Group{{vals: []c01Val{{text: "'" + pf.Addr().String() + "'", tok: c12Tok(pf), pfx: pf}}}}}
-		} else {
-			d := i % 64
-			c1 = c01Cond{fn: "dscp", groups: []c01Group{{vals: []c01Val{{text: fmt.Sprint(d), tok: fmt.Sprint(d), dscp: d}}}}}
-		}
-		ru.conds = []c01Cond{c1, c2}
-		ru.outName, ru.outId, ru.mark, ru.must, ru.style = randOut()
-		p.rules = append(p.rules, ru)
-	}
-	if filler > 0 {
-		p.aimFrom = filler
-	}
 	for i := 0; i < n; i++ {
 		var ru c01Rule
 		nc := 1 + r.Intn(3)
 		if r.Chance(0.15) {
 			nc = 4 + r.Intn(3)
 		}
-		if filler > 0 && nc < 2 {
+		if large && nc < 2 {
 			nc = 2 // no single-condition rules in large programs: neighbours must not be merged (below)
 		}
 		for j := 0; j < nc; j++ {
 			c := c01GenCond(r, stats, p)
-			if filler > 0 {
+			if large {
 				// Large programs probe the match-set limit, so the number of match sets the model derives
 				// from the typed program must be the number the builder emits: no rule merging (every rule
 				// has >= 2 conditions) and no textually repeated value (DeduplicateParamsOptimizer drops it).
@@ -416,6 +448,47 @@ func c01GenProgN(r *VRand, stats *VStats, n int, filler int) *c01Prog {
 		}
 		p.rules = append(p.rules, ru)
 	}
+	// the filler rules come first in the program, but their number may depend on what the ordinary
+	// rules lower to (exact target)
+	ordinary := p.rules
+	p.rules = nil
+	odd := false
+	if lg.target > 0 {
+		sets := 1 // the fallback
+		for i := range ordinary {
+			for j := range ordinary[i].conds {
+				sets += c01CondSets(&ordinary[i].conds[j])
+			}
+		}
+		filler = (lg.target - sets) / 2
+		odd = (lg.target-sets)%2 == 1
+		if filler < 1 {
+			filler, odd = 1, false
+		}
+	}
+	for i := 0; i < filler; i++ {
+		var ru c01Rule
+		port := 10000 + i
+		c2 := c01Cond{fn: "dport", groups: []c01Group{{vals: []c01Val{{text: fmt.Sprint(port), tok: fmt.Sprintf("%d-%d", port, port), lo: port, hi: port}}}}}
+		var c1 c01Cond
+		if i%3 == 0 || lg.everyLpm {
+			pf := netip.PrefixFrom(netip.AddrFrom4([4]byte{172, 16 + byte(i>>16), byte(i >> 8), byte(i)}), 32)
+			c1 = c01Cond{fn: "sip", groups: []c01Group{{vals: []c01Val{{text: "'" + pf.Addr().String() + "'", tok: c12Tok(pf), pfx: pf}}}}}
+		} else {
+			d := i % 64
+			c1 = c01Cond{fn: "dscp", groups: []c01Group{{vals: []c01Val{{text: fmt.Sprint(d), tok: fmt.Sprint(d), dscp: d}}}}}
+		}
+		ru.conds = []c01Cond{c1, c2}
+		if i == 0 && odd {
+			ru.conds = append(ru.conds, c01Cond{fn: "l4proto", groups: []c01Group{{vals: []c01Val{{text: "tcp", tok: "1", lit: "tcp"}}}}})
+		}
+		ru.outName, ru.outId, ru.mark, ru.must, ru.style = randOut()
+		p.rules = append(p.rules, ru)
+	}
+	if filler > 0 {
+		p.aimFrom = filler
+	}
+	p.rules = append(p.rules, ordinary...)
 	// pointers into conds moved when rules were appended: recompute domGroups
 	p.domGroups = nil
 	for i := range p.rules {
@@ -585,8 +658,9 @@ func c01GenPkt(r *VRand, p *c01Prog, stats *VStats) c01Pkt {
 			}
 		case "mac":
 			k.mac = v.mac
-			if r.Chance(0.2) {
-				k.mac[5] ^= 1
+			if r.Chance(0.25) {
+				k.mac[r.Intn(6)] ^= byte(1 << uint(r.Intn(8))) // one bit off, in any of the six bytes
+				stats.Inc("pkt.mac_one_bit_off")
 			}
 			if r.Chance(0.15) {
 				k.mac = [6]byte{}
@@ -646,6 +720,9 @@ func TestVerifC01(t *testing.T) {
 	for i, n := range c01Outs {
 		name2id[n] = uint8(i)
 	}
+	// the match-set limit is the code's (`consts.MaxMatchSetLen`, a variable settable at link time)
+	limit := consts.MaxMatchSetLen
+	st.Emit(fmt.Sprintf("limit %d", limit), fmt.Sprintf("limit=%d", limit))
 	for pi := 0; pi < nProg; pi++ {
 		mr := maxRules
 		if pi%10 == 0 {
@@ -655,7 +732,19 @@ func TestVerifC01(t *testing.T) {
 		if pi < nLarge {
 			// "up to the match-set limit": ≈ 2 match sets per filler rule, so the ordinary rules at the
 			// end (domain / ip / mac sets among them) sit just below, across and just above position 1024
-			p = c01GenProgN(r, stats, 12+r.Intn(12), []int{300, 380, 420, 440, 460, 470, 480, 490, 495, 500}[r.Intn(10)])
+			switch pi {
+			case 0: // exactly at the limit: accepted
+				p = c01GenProgN(r, stats, 12+r.Intn(12), 0, c01Large{target: limit})
+				stats.Inc("prog.target_exactly_at_limit")
+			case 1: // one match set more: refused
+				p = c01GenProgN(r, stats, 12+r.Intn(12), 0, c01Large{target: limit + 1})
+				stats.Inc("prog.target_one_above_limit")
+			case 2: // every filler rule with an address set of its own: far more than 256 LPM slots
+				p = c01GenProgN(r, stats, 12+r.Intn(12), 0, c01Large{target: limit - r.Intn(40), everyLpm: true})
+				stats.Inc("prog.every_rule_own_lpm_set")
+			default:
+				p = c01GenProgN(r, stats, 12+r.Intn(12), limit*[]int{300, 380, 420, 440, 460, 470, 480, 490, 495, 500}[r.Intn(10)]/1024, c01Large{})
+			}
 			stats.Inc("prog.large")
 		} else {
 			p = c01GenProg(r, stats, mr)
@@ -675,6 +764,9 @@ func TestVerifC01(t *testing.T) {
 			}
 			conf, err := config.New(sections)
 			if err != nil {
+				if p.aimFrom > 0 {
+					return "err:build" // wherever the size of a large program is refused, it is the limit's refusal
+				}
 				return "err:config:" + err.Error()
 			}
 			// the production pipeline of NewControlPlane: the optimizer list is regenerated from
@@ -683,6 +775,9 @@ func TestVerifC01(t *testing.T) {
 			program, err := routing.NewNormalizedProgram(conf.Routing.Rules, conf.Routing.Fallback,
 				c01ProductionOptimizers(log, locationFinder)...)
 			if err != nil {
+				if p.aimFrom > 0 {
+					return "err:build"
+				}
 				return "err:optimizers:" + err.Error()
 			}
 			b, err := NewRoutingMatcherBuilderFromProgram(log, program, name2id, nil)
@@ -712,6 +807,17 @@ func TestVerifC01(t *testing.T) {
 		stats.Max("max_matchsets", nsets)
 		if p.exotic {
 			stats.Inc("prog.exotic_literal_accepted")
+		}
+		if pi < nLarge && pi <= 2 {
+			// the directed large programs: what was aimed at was reached (the verdict is the model's)
+			switch {
+			case pi == 0 && buildOut == "ok" && nsets == limit:
+				stats.Inc("prog.accepted_with_exactly_limit_match_sets")
+			case pi == 1 && buildOut == "err:build":
+				stats.Inc("prog.refused_with_limit_plus_one_match_sets")
+			case pi == 2 && buildOut == "ok":
+				stats.Max("prog.max_lpm_sets_in_one_program", p.aimFrom)
+			}
 		}
 		if matcher == nil {
 			stats.Inc("prog.build_failed")
@@ -749,6 +855,17 @@ func TestVerifC01(t *testing.T) {
 			viaRoute := r.Chance(0.8)
 			if !viaRoute && r.Chance(0.3) {
 				ipver = 3 - ipver // Match called directly with the other version bit
+			}
+			if pk.domain == "" {
+				for _, g := range p.domGroups {
+					if g.key == "regex" {
+						for _, v := range g.vals {
+							if ok, _ := regexp.MatchString(v.pat, ""); ok {
+								stats.Inc("pkt.no_domain_vs_regex_matching_empty_string")
+							}
+						}
+					}
+				}
 			}
 			nameTok, rxTok := "-", "-"
 			if pk.domain != "" && len(p.domGroups) > 0 {
